@@ -120,6 +120,12 @@ def run(shard, ctx):
         # very long names (a thousand and more accidentals, pure and mixed): still names, with the same clauses
         for nm in ("C" + "#" * 1200, "B" + "b" * 1500, "E" + "#b" * 800, "G" + "b#" * 1100 + "b", "A" + "#" * 5000):
             check_name(ctx, nm)
+        # long names that agree in letter, first accidental and length and differ in what they add up to
+        for L_ in "GC":
+            for n_ in (33, 40, 64, 200):
+                for flats in (0, 5, 1, n_ // 2, n_ - 1):
+                    check_name(ctx, L_ + "#" * (n_ - flats) + "b" * flats)
+                    check_name(ctx, L_ + "b" + "#" * flats + "b" * (n_ - flats - 1))
         rng = ctx.rng("unicode")
         pools = ["ABCDEFG#b", "abcdefgh#b", "CDE#b♭♯\U0001d12a", "0123456789-", " \t\n", "C#b" * 3]
         for i in range(shard["random"]):
